@@ -31,20 +31,20 @@ CLAIMED = {
    technique="property-based testing: generated send/cancel/terminate programs + time-stamped history invariants (not-early, exactly-once, cancel isolation, due order)"),
  "C17": dict(
    level="exploration",
-   text="Scenarios of 2-4 initial plus concurrently started sessions of one executor, driven by 2-6 host threads with 4-31 operations each (start session, cross-session send immediately / delayed, invoke inline child of four kinds with optional autoforward, leave the invoking state, send to child, FsmExecutor::send_to_session, cancel) and an optional final FsmExecutor::shutdown racing with sending sessions. The instrumented mutex of the Verif_Hooks feature records per thread which lock classes are requested while which are held, detects wait-for cycles at blocking time (owner/waiter tables), injects seeded jitter and holds threads between generated (held class, requested class) pairs (steering). Oracle: every host thread finishes and every session thread ends after cancel; a recorded wait-for cycle is the proof of a deadlock.",
+   text="Scenarios of 2-4 initial plus concurrently started sessions of one executor, driven by 2-6 host threads with 4-31 operations each (start session, cross-session send immediately / delayed, invoke a child of four kinds (inline content, or src=file in 35 % of the scenarios) with optional autoforward, leave the invoking state, send to child, FsmExecutor::send_to_session, cancel) and an optional final FsmExecutor::shutdown racing with sending sessions. The instrumented mutex of the Verif_Hooks feature records per thread which lock classes are requested while which are held, detects wait-for cycles at blocking time (owner/waiter tables), injects seeded jitter and holds threads between generated (held class, requested class) pairs (steering). Oracle: every host thread finishes and every session thread ends after cancel; a recorded wait-for cycle is the proof of a deadlock.",
    design="6/C17",
    note="Search, not proof: schedules are sampled and steered over the four instrumented lock classes (executor state, I/O processor, global data, data values); locks inside the timer crate, std mpsc and tokio are not instrumented. A stall without a recorded cycle is reported as inconclusive (exit 2). Class-level lock-order cycles that never materialise (e.g. a new session's own global data -> processor) are listed in the evidence as candidates, not alarmed.",
    technique="property-based concurrency testing: generated multi-session scenarios + schedule steering/jitter at instrumented locks + wait-for-cycle detection and progress oracle"),
  "C13": dict(
    level="exploration",
-   text="Scenarios with 1-8 concurrent producers (host threads through the session sender and through FsmExecutor::send_to_session, a sibling session sending in a foreach, delayed self-sends fired by the timer thread) x 1-60 events each, with generated sleeps, a pause inside the receiver's macrostep and optional seeded lock jitter (hook). History invariants on the receiver's mark log: every event processed exactly once, each producer's events in its send order, each event's two internal follow-ups processed before the next external event (no overlap).",
+   text="Scenarios with 1-8 concurrent producers (host threads through the session sender and through FsmExecutor::send_to_session, a sibling session sending in a foreach, delayed self-sends fired by the timer thread, a child invoked by the receiver sending to #_parent in a foreach) x 1-60 events each, with generated sleeps, a pause inside the receiver's macrostep and optional seeded lock jitter (hook). History invariants on the receiver's mark log: every event processed exactly once, each producer's events in its send order, each event's two internal follow-ups processed before the next external event (no overlap).",
    design="6/C13",
    note="Schedules are sampled from what the OS scheduler, the generated sleeps and the lock jitter produce; 'all interleavings' is not enumerated (the queue is a std mpsc channel). A single observed bad history is itself the counterexample.",
    technique="property-based concurrency testing: generated producer scenarios + history invariants (exactly-once, per-sender order, no overlap)"),
 
  "C12": dict(
    level="exploration",
-   text="Hostile-content profile: conformant structure, C11's expression pool (grammar-derived, mutated, known nasty sources) in every expression position, odd host events (empty / dotted / done.invoke.* / trace.* names, unknown invoke ids, error / source / nested payloads) and 0-3 platform faults per case from 14 kinds (unknown session, malformed target, unknown invoke id, #_parent without parent, unsupported type, illegal delays, delay with #_internal, unknown scheme, four kinds of unstartable invokes). Oracle: no panic on the session thread, the final __ping is answered, the session ends on cancel in time, and each send fault's macrostep dequeues the error event the Recommendation assigns.",
+   text="Hostile-content profile: conformant structure, C11's expression pool (grammar-derived, mutated, known nasty sources) in every expression position, odd host events (empty / dotted / done.invoke.* / trace.* names, unknown invoke ids, error / source / nested payloads) and 0-3 platform faults per case from 19 kinds (incl. invokes whose namelist / srcexpr / typeexpr / param expr / content expr fails while the invoking state stays active) (unknown session, malformed target, unknown invoke id, #_parent without parent, unsupported type, illegal delays, delay with #_internal, unknown scheme, four kinds of unstartable invokes). Oracle: no panic on the session thread, the final __ping is answered, the session ends on cancel in time, and each send fault's macrostep dequeues the error event the Recommendation assigns.",
    design="6/C12",
    note="Generated machines have no eventless, wildcard or error.* transitions, so a session that does not come back is wedged by the platform and not by its own document. 8 s limit per session (normal ~2 ms), confirmed alone by the engine's watchdog logic for process-level stalls.",
    technique="property-based robustness fuzzing (hostile content + fault injection) with liveness probe (ping) and error-event oracle"),
@@ -58,7 +58,7 @@ CLAIMED = {
 
  "C08": dict(
    level="exploration",
-   text="Content profile (nested if/elseif/else, foreach with item/index, assign, raise, log, script, send to #_internal in onentry/onexit/transition/initial/history bodies; rfsm-expression and strict ECMAScript) with an observation mark between all elements and at most one injected failing evaluation per block (12 kinds); the observed trace with error events projected out must equal the reference content interpreter's (either continuation of an erroring if-condition accepted) and error.execution must be dequeued exactly in the macrosteps in which the reference raised it.",
+   text="Content profile (nested if/elseif/else, foreach with item/index, assign, raise, log, script, send to #_internal in onentry/onexit/transition/initial/history bodies; rfsm-expression and strict ECMAScript) with an observation mark between all elements and at most one injected failing evaluation per block (17 kinds, incl. failing elements nested in executed branches / loop bodies and a foreach whose item cannot be declared); the observed trace with error events projected out must equal the reference content interpreter's (either continuation of an erroring if-condition accepted) and error.execution must be dequeued exactly in the macrosteps in which the reference raised it.",
    design="6/C08",
    note="No generated transition matches error.* so the number of error events per failure (>= 1) is not constrained. <param> errors (which do not abort the send) and finalize bodies are not injected here.",
    technique="property-based differential testing vs. reference content interpreter with fault (evaluation-error) injection"),
